@@ -232,7 +232,10 @@ def verus_unit(unit, tier):
     for lh in meta['lost_hints']:
         bad = [n for n in out['failed'] if n.startswith(lh['fn'] + '/')]
         if bad:
-            out['undecided'].append('hint anchor `%s` lost in %s and its proof now fails' % (lh['anchor'], lh['fn']))
+            # the proof of this function lost a hint it needs: its failures are UNDECIDED, never a violation
+            out['undecided'].append('hint anchor `%s` lost in %s and its proof now fails (%s)' % (lh['anchor'], lh['fn'], ', '.join(sorted(bad))[:200]))
+            for nme in bad:
+                out['failed'].pop(nme, None)
     out['extract_wall'] = time.time() - t0 - res['wall']
     return out
 
